@@ -44,7 +44,7 @@ RESOURCE = ("Resource limit", "rlimit", "timed out", "timeout")
 
 def verus_cmd(rs, rlimit):
     return ["verus", rs, "--edition", "2024", "--output-json", "--time", "--error-format=json",
-            "--rlimit", str(rlimit), "--multiple-errors", "4", "--no-report-long-running"]
+            "--rlimit", str(rlimit), "--multiple-errors", "8", "--no-report-long-running"]
 
 
 def fn_of_line(linemap, line):
@@ -59,11 +59,11 @@ def clause_tag(text):
     return (m.group(1), m.group(2)) if m else None
 
 
-def run_unit(unit, outdir, rlimit=30, repo=None):
+def run_unit(unit, outdir, rlimit=30, repo=None, drop_clauses=()):
     # R22: when Verus cannot find a VALUE that is a constant of the unit's source files, extract it and run again (at most 3 rounds)
     extra = []
     for _ in range(4):
-        res = run_unit_once(unit, outdir, rlimit, repo, tuple(extra))
+        res = run_unit_once(unit, outdir, rlimit, repo, tuple(extra), drop_clauses)
         missing = [m for m in re.findall(r"cannot find value `(\w+)` in this scope", res.get("undecided_reason", "")) if m not in extra]
         if res["status"] != "undecided" or not missing:
             return res
@@ -71,7 +71,7 @@ def run_unit(unit, outdir, rlimit=30, repo=None):
     return res
 
 
-def run_unit_once(unit, outdir, rlimit=30, repo=None, extra_consts=()):
+def run_unit_once(unit, outdir, rlimit=30, repo=None, extra_consts=(), drop_clauses=()):
     t0 = time.time()
     res = dict(unit=unit, status="undecided", functions={}, failures=[], undecided_reason="", assumptions=[], rewrites=[],
                checker_cmd="", wall_s=0.0, smt_ms=0, canaries_failed_as_expected=0)
@@ -88,6 +88,14 @@ def run_unit_once(unit, outdir, rlimit=30, repo=None, extra_consts=()):
     if meta["hint_assumes"]:
         res["undecided_reason"] = "assume/admit inside a hint: %s" % meta["hint_assumes"]
         return res
+    if drop_clauses:
+        # dependency run (registry.run_verus): contract clauses that were found to fail and belong to other properties are taken out
+        # of the contracts, so that no caller's proof can lean on them; line numbers are kept
+        keep = []
+        for l in open(rs).read().split("\n"):
+            m = re.match(r"/\*@(?:spec|loop) ([^*]+)\*/", l)
+            keep.append("/*@dropped %s*/" % m.group(1) if m and m.group(1).strip() in drop_clauses else l)
+        open(rs, "w").write("\n".join(keep))
     cmd = verus_cmd(rs, rlimit)
     res["checker_cmd"] = " ".join(cmd)
     env = dict(os.environ)
